@@ -13,7 +13,13 @@ CONF = dict(
           'clients, the store and queue sizes after every newcomer, heap order, indices and queue values are compared with the eviction rule; plus the lock-discipline check of '
           'the source. Thorough tier in addition (cmd/c07heap): histories with 16..64 clients (queue array several levels deep, equal queue values) with the same slot-by-slot '
           'comparison, and random Push/Pop/Remove/Fix sequences (arrays up to ~200 slots, many ties) on the real container/heap with a queue type carrying tssQueue\'s methods, '
-          'array, back-pointers and popped element compared with the model after every call. Non-trivial: histories as in C06, every flood, deep histories that fix and remove '
+          'array, back-pointers and popped element compared with the model after every call. Also: tss.full = operations on the store at 2^20 clients with real before/after items (known clients with 1..8 exchanges; the least recently active clients hold several exchanges, some with their newest one dropped again = queue value lowered '
+          'at the root; newcomers older than / as recent as / 1 ns older than / newer than the root): bounds of every item and the ADMISSION decision judged against the root of the queue before the call; '
+          'tss.conc = 8..32 goroutines calling handleRequest/updateTXTimestamp at once on the full store (each client driven by one goroutine, so its calls are ordered; newcomers evict / are served without state): '
+          'replies, reported times and final items must be those of the model run per client in program order, queue array structurally sound (thorough: the same under -race, tss.race); '
+          'lsn.hist = histories through the real IP/SCION listeners, after which the keys of the store must be exactly the ids of the clients answered, each once; the lock-discipline check also refuses: the item/queue '
+          'type or its fields named outside handleRequest/updateTXTimestamp/queue methods, go statements or function literals in functions that hold tssMu, any use of tssMu other than Lock/Unlock, a tssMu that is not a plain sync.Mutex. '
+          'Non-trivial: histories as in C06, every flood, deep histories that fix and remove '
           'with >= 16 queue slots, heap sequences with pop, remove and fix on >= 8 slots; distinct = distinct (kind, input)'),
     assumptions=['one NTP era for "recency" (Time64.Before compares raw seconds)',
                  'container/heap is the verified array heap of Model/TssHeap.v (up/down/Push/Pop/Remove/Fix transcribed from src/container/heap/heap.go, Less = strict <, Swap rewriting qidx): '
@@ -25,7 +31,7 @@ CONF = dict(
                'case analysis of the admission decision (evict only the minimum, only when full, only for a newcomer at least as recent; else stateless); a verified array heap '
                '(container/heap on tssQueue: heap order, qidx back-pointers and contents preserved by Push/Pop/Remove/Fix, fuel of up/down never exhausted, root = minimum) and a '
                'refinement proof: handleRequest/updateTXTimestamp with the real heap calls behave as the abstract model with victim = the popped root, for every operation and every '
-               'history; a generic theorem that critical sections of one mutex serialise in lock order; differential execution incl. exact queue layout, 2^20-client floods against '
+               'history; a generic theorem that critical sections of one mutex serialise in lock order, instantiated with the store (C07_concurrent_calls_serialize: for any goroutines, programs of calls and schedule, store AND replies are those of Tss.run_log on the calls in lock order); frame theorems (a call touches only the item of its own client, C07_frame); differential execution incl. exact queue layout, 2^20-client floods against '
                'the real constant capacity; syntactic lock-discipline check'),
     level_text=('Theorems hold for all capacities, all histories (incl. more distinct clients than the capacity) and all schedules of any number of goroutines whose accesses lie in '
                 'critical sections of one lock; the priority queue is the concrete container/heap array, proved to stay a heap with right back-pointers and to pop a minimum; tied to '
